@@ -554,6 +554,19 @@ Definition destroy_trace (hooks : list hook) (orc : oracle) (s : est) : list tev
     ++ match map h_id (filter is_task hs) with [] => [] | ts => [TTasks ts (MDestroy, w)] end)
     (destroy_weights hooks).
 
+(* Environment.ForceError: nothing when DONE; while RUNNING the open run is closed first (end
+   stamps, each only if still empty, with their run events), as a teardown while RUNNING does *)
+Definition force_error (s : est) : est * list tev :=
+  match e_st s with
+  | DONE => (s, [])
+  | RUNNING =>
+    let rn := rv_rn (e_rv s) in
+    let '(s1, d1) := set_soeor_if_empty s in
+    let '(s2, d2) := set_eoeor_if_empty s1 in
+    (set_st ERROR s2, (if d1 then [TRun 6 0 rn] else []) ++ (if d2 then [TRun 6 0 rn] else []))
+  | _ => (set_st ERROR s, [])
+  end.
+
 Definition run_op (hooks : list hook) (i : N) (o : op) (s : est) : est * list tev * result :=
   let orc := oracle_of i o in
   match o_kind o with
@@ -563,7 +576,7 @@ Definition run_op (hooks : list hook) (i : N) (o : op) (s : est) : est * list te
     let '(s1, t, r) := transition hooks orc GO_ERROR (o_body o) s in
     match r with
     | ROk | RCrash => (s1, t, r)
-    | _ => (match e_st s1 with ERROR => s1 | _ => set_st ERROR s1 end, t, r)
+    | _ => let '(s2, tf) := force_error s1 in (s2, t ++ tf, r)
     end
   | OLeaveCancel =>
     let '(s1, t, p) := leave_all hooks orc s in
